@@ -55,6 +55,15 @@ def run(c):
                 "commits_read": stats["commits"], "model_impl_disagreements": stats["diffs"],
                 "monitor_violations": stats["violations"], "sanitizer_aborts": stats["crashes"],
                 "proof_failures": audit["failures"]})
+    if not quick:
+        # how much of the C++ the model ports do the correspondence scripts of this run execute (gcov build; measurement, not a verdict)
+        try:
+            sys.path.insert(0, os.path.join(vlib.ROOT, "tools"))
+            import model_coverage
+            cov["modelled_code_coverage"] = model_coverage.coverage(
+                c.work, sc.scripts_for(hs, rows_for), lambda d: sc.make_workspace(d, list(sc.SCHEMAS)))
+        except Exception as e:
+            cov["modelled_code_coverage"] = {"error": repr(e)[:300]}
     c.cov = cov
     c.assumptions = ["raw input is ASCII (all the key path can produce) for the UTF-8 boundary clause",
                      "translation oracle texts are valid UTF-8", "page_size >= 1 (Schema clamps it)"]
